@@ -337,6 +337,13 @@ def run_model_history(case, ctx):
             elif r < 0.5:
                 nas.train(rng.random() < 0.5)
                 hist.append(('train' if nas.training else 'eval',))
+            elif r < 0.62:
+                # a parameter group is frozen / released (the phases of a search): whether the
+                # coefficients are *trainable* has nothing to do with how they are sampled
+                ctl = rng.choice(['train_net_only', 'train_nas_only', 'train_net_and_nas'])
+                getattr(nas, ctl)()
+                hist.append((ctl,))
+                ctx.cls('history:' + ctl)
             else:
                 with torch.no_grad():
                     nas(x)
